@@ -331,7 +331,7 @@ pub fn op(p: &GenProfile) -> BoxedStrategy<Op> {
         ),
         (
             w.fill,
-            (any::<u16>(), prop_oneof![3 => 2u16..40, 2 => 40u16..400, 1 => 400u16..1500], prop_oneof![3 => Just(16u8), 2 => Just(0u8), 1 => 0u8..240], proptest::bool::weighted(0.15), any::<bool>())
+            (any::<u16>(), prop_oneof![3 => 2u16..40, 2 => 40u16..400, 1 => 400u16..1500, 2 => prop_oneof![Just(254u16), Just(255u16), Just(256u16), Just(257u16), Just(508u16), Just(510u16), Just(512u16)]], prop_oneof![3 => Just(16u8), 2 => Just(0u8), 1 => 0u8..240], proptest::bool::weighted(0.15), any::<bool>())
                 .prop_map(|(start, n, len, del, one_seqno)| Op::Fill { start, n, len, del, one_seqno })
                 .boxed(),
         ),
